@@ -281,6 +281,9 @@ func enumSources(c *ev.Ctx, heavy bool, emit srcEmit) {
 	L2, L3 := 18, 10
 	if c.Thorough() {
 		L2, L3 = 21, 12
+		if c.Prop == "C11" {
+			L2, L3 = 19, 11 // the geometry sweep multiplies every source by ~80 destination lengths
+		}
 	}
 	for n := 0; n <= L2; n++ {
 		for v := uint64(0); v < 1<<uint(n); v++ {
@@ -574,7 +577,11 @@ func blockEnumRun(prop string) func(c *ev.Ctx) {
 				cfgs = append(cfgs, compCfg{Algo: "fast", Via: "fresh"})
 			}
 			hcOK := c.Thorough() || s.Fam != "S1" || (s.Alpha == "01" && s.Len <= 16) || (s.Alpha == "abc" && s.Len <= 9)
-			for _, d := range hcDepths(c, big) {
+			depths := hcDepths(c, big)
+			if prop == "C11" && c.Thorough() && !big {
+				depths = []uint32{0, 1, 1 << 8, 65537}
+			}
+			for _, d := range depths {
 				if !hcOK {
 					break // quick tier: HC pays a 1 MiB table clear per call; the longest S1 strings run on the fast compressor only
 				}
